@@ -15,6 +15,7 @@ import (
 	"github.com/ipld/go-ipld-prime/codec/dagcbor"
 	"github.com/ipld/go-ipld-prime/codec/dagjson"
 	"github.com/ipld/go-ipld-prime/datamodel"
+	cidlink "github.com/ipld/go-ipld-prime/linking/cid"
 	"github.com/ipld/go-ipld-prime/node/basicnode"
 
 	"github.com/ucan-wg/go-ucan/did"
@@ -481,7 +482,8 @@ func init() {
 			isInt bool
 			wantF float64
 			neg   bool
-			big   string // decimal of the supplied integer when it does not fit int64
+			big   string               // decimal of the supplied integer when it does not fit int64
+			same  func(ipld.Node) bool // for the other kinds: is this exactly the value that was supplied?
 		}
 		var ps []probe
 		addI := func(ty, v string, val any, want int64) {
@@ -520,6 +522,43 @@ func init() {
 		ps = append(ps, probe{ty: "float32", v: "typemax", val: float32(math.MaxFloat32), wantF: float64(float32(math.MaxFloat32))})
 		ps = append(ps, probe{ty: "float64", v: "typemax", val: math.MaxFloat64, wantF: math.MaxFloat64})
 		ps = append(ps, probe{ty: "float64", v: "frac", val: 0.1, wantF: 0.1})
+		// values of the other kinds: text (empty, multi-byte, NUL, not valid UTF-8: stored byte for byte), byte strings (empty,
+		// nil, binary), booleans, links, fixed-size byte arrays
+		for _, sv := range []string{"", "héllo 日本", "a\x00b", "caf\xe9", "\xff\xfe", strings.Repeat("x", 70000)} {
+			sv := sv
+			ps = append(ps, probe{ty: "string", v: fmt.Sprintf("%.12q/%d", sv, len(sv)), val: sv, same: func(n ipld.Node) bool {
+				got, err := n.AsString()
+				return err == nil && got == sv
+			}})
+		}
+		for _, bv := range [][]byte{{}, nil, {0, 255, 1}, bytes.Repeat([]byte{0}, 300)} {
+			bv := bv
+			ps = append(ps, probe{ty: "[]byte", v: fmt.Sprintf("%d bytes nil=%v", len(bv), bv == nil), val: bv, same: func(n ipld.Node) bool {
+				got, err := n.AsBytes()
+				return err == nil && bytes.Equal(got, bv)
+			}})
+		}
+		for _, b := range []bool{true, false} {
+			b := b
+			ps = append(ps, probe{ty: "bool", v: fmt.Sprint(b), val: b, same: func(n ipld.Node) bool {
+				got, err := n.AsBool()
+				return err == nil && got == b
+			}})
+		}
+		for k := 0; k < 4; k++ {
+			c := missingCid(40)
+			if k > 0 {
+				c = aliasCid(c, k)
+			}
+			ps = append(ps, probe{ty: "cid.Cid", v: c.String(), val: c, same: func(n ipld.Node) bool {
+				l, err := n.AsLink()
+				if err != nil {
+					return false
+				}
+				cl, ok := l.(cidlink.Link)
+				return ok && cl.Cid.Equals(c) && cl.Cid.String() == c.String()
+			}})
+		}
 		// the same boundary integers handed over as IPLD nodes (the documented alternative to Go values)
 		for _, v := range []struct {
 			name string
@@ -556,6 +595,12 @@ func init() {
 				if node == nil {
 					return "altered"
 				}
+			}
+			if p.same != nil {
+				if p.same(node) {
+					return "exact"
+				}
+				return "altered"
 			}
 			if p.isInt {
 				got, e := node.AsInt()
@@ -615,11 +660,51 @@ func init() {
 				}
 				return inv.Arguments().GetNode("k")
 			})
+			// the other ways a value reaches (or travels between) argument and metadata collections
+			n5, e5 := safe(func() (ipld.Node, error) {
+				a, err := args.NewBuilder().Add("j", 1).Add("k", p.val).Build()
+				if err != nil {
+					return nil, err
+				}
+				return a.GetNode("k")
+			})
+			n6, e6 := safe(func() (ipld.Node, error) {
+				n, err := args.NewBuilder().Add("k", p.val).Add("z", "z").BuildIPLD()
+				if err != nil {
+					return nil, err
+				}
+				return n.LookupByString("k")
+			})
+			n7, e7 := safe(func() (ipld.Node, error) {
+				a := args.New()
+				if err := a.Add("k", p.val); err != nil {
+					return nil, err
+				}
+				b := args.New()
+				_ = b.Add("other", true)
+				b.Include(a.Clone().ReadOnly().WriteableClone())
+				inv, err := invocation.New(didOrPanic(), didOrPanic(), command.Top(), nil, invocation.WithArguments(b))
+				if err != nil {
+					return nil, err
+				}
+				return inv.Arguments().WriteableClone().GetNode("k")
+			})
+			n8, e8 := safe(func() (ipld.Node, error) {
+				m := meta.NewMeta()
+				if err := m.Add("k", p.val); err != nil {
+					return nil, err
+				}
+				m2 := meta.NewMeta()
+				_ = m2.Add("other", 1)
+				m2.Include(m.Clone().ReadOnly().WriteableClone())
+				return m2.ReadOnly().GetNode("k")
+			})
 			for _, r := range []struct {
 				api string
 				n   ipld.Node
 				e   error
-			}{{"args.Add", n1, e1}, {"meta.Add", n2, e2}, {"literal.Any", n3, e3}, {"invocation.WithArgument", n4, e4}} {
+			}{{"args.Add", n1, e1}, {"meta.Add", n2, e2}, {"literal.Any", n3, e3}, {"invocation.WithArgument", n4, e4},
+				{"args.Builder.Build", n5, e5}, {"args.Builder.BuildIPLD", n6, e6}, {"Args.Clone/Include/WithArguments", n7, e7}, {"Meta.Clone/Include", n8, e8}} {
 				pn := false
 				if r.e != nil && strings.HasPrefix(r.e.Error(), "panic") {
 					pn = true
